@@ -175,6 +175,7 @@ class VmTuple(TlbScheme):
         if len(values) == 0:
             return Cell.empty()
         builder = Builder()
+        values = VmTuple(list(values.list))  # do not consume the caller's tuple
         value = values.pop()
         builder.store_cell(VmTupleRef.serialize(values))
         builder.store_ref(VmStackValue.serialize(value))
